@@ -569,6 +569,20 @@ theorem merkle_loops_fuel_irrelevant {α : Type} (merge : α → α → α) (zer
     (∀ (q : List (Nat × α)) (lem : List α) (f : Nat), pFuel q ≤ f → rootLoop merge f q lem = rootLoop merge (pFuel q) q lem) :=
   ⟨fun q f h => buildLoop_fuel_irrelevant zero nodes q f h, fun q lem f h => rootLoop_fuel_irrelevant merge q lem f h⟩
 
+/-- **total decision table of `CBMT::build_merkle_proof`**: `None` exactly when there are no leaves, no indices, or some
+index is not a leaf position (only the LARGEST index is range-checked by the code — that suffices); otherwise a proof,
+except the assertion panic, which needs a one-leaf tree (`build_merkle_proof_panics_only_on_one_leaf`) -/
+theorem build_merkle_proof_none_iff {α : Type} (le : α → α → Bool) (merge : α → α → α) (zero : α) (leaves : List α) (idx : List Nat) :
+    buildMerkleProof le merge zero leaves idx = .none ↔ (leaves = [] ∨ idx = [] ∨ ∃ i ∈ idx, leaves.length ≤ i) :=
+  buildMerkleProof_none_iff le merge zero leaves idx
+
+/-- **`CBMT::retrieve_leaves` answers `None` exactly** when there are no leaves, no indices, or some index is outside
+`leaves_count - 1 .. 2 * leaves_count - 1` — duplicates are accepted -/
+theorem retrieve_leaves_none_iff {α : Type} (zero : α) (leaves : List α) (p : MProof α) :
+    retrieveLeaves zero leaves p = none ↔
+      (leaves = [] ∨ p.indices = [] ∨ ∃ i ∈ p.indices, i < leaves.length - 1 ∨ 2 * leaves.length - 1 ≤ i) :=
+  retrieveLeaves_none_iff zero leaves p
+
 /-- `MerkleProof::verify` accepts the honest proof -/
 theorem merkle_proof_verifies {α : Type} [DecidableEq α] (le : α → α → Bool)
     (htot : ∀ a b : α, le a b = true ∨ le b a = true) (htrans : ∀ a b c : α, le a b = true → le b c = true → le a c = true)
